@@ -85,3 +85,174 @@ func H_C01_json() {
 	vxrt.Assert(vxrt.FSStamp() == stamp, "C01:replay-no-write")
 	vxrt.Assert(vxrt.Eq(dumpDir(dir), before), "C01:replay-dir-unchanged")
 }
+
+// H_C01_mixed: a file with an optional pre-existing third-party entry; two
+// tests (one a prefix/sub-test of the other) make 1..2 and 0..1 calls of
+// arbitrary kinds (MatchSnapshot / MatchYAML / MatchJSON); record, then replay.
+func H_C01_mixed() {
+	vxrt.CI(false)
+	vxrt.YAMLAssume(true)
+	dir := vxrt.Dir()
+	c := WithConfig(Dir(dir), Filename("f"))
+	n := vxrt.Param("n", 3)
+	ascii := vxrt.Param("ascii", 1) == 1
+	if vxrt.Bool("pre-existing-entry") {
+		body := symText("pre", vxrt.Param("m", 2), ascii)
+		vxrt.Assume(noTerminatorLine(body))
+		writeFile(dir+"/f.snap", frame("TestZ - 1", body))
+	}
+	names := []string{"TestA", []string{"TestA/b", "TestAB"}[vxrt.Choice("second-name", 2)]}
+	ncalls := []int{vxrt.Len("calls-1", 1, 2), vxrt.Len("calls-2", 0, 1)}
+	type call struct {
+		kind int
+		text string
+	}
+	var plan [2][]call
+	for ti := 0; ti < 2; ti++ {
+		for k := 0; k < ncalls[ti]; k++ {
+			kind := vxrt.Choice("kind", 3)
+			var text string
+			if kind == kindJSON {
+				text = jsonTemplate("json", 1)
+			} else {
+				text = symText("text", n, ascii)
+			}
+			plan[ti] = append(plan[ti], call{kind, text})
+		}
+	}
+	run := func(record bool) {
+		for ti := 0; ti < 2; ti++ {
+			t := newT(names[ti])
+			for _, cl := range plan[ti] {
+				doCall(c, t, cl.kind, cl.text)
+			}
+			t.end()
+			if record {
+				vxrt.Assert(len(t.errors) == 0 && len(t.logs) == len(plan[ti]), "C01:record")
+			} else {
+				vxrt.Assert(len(t.errors) == 0, "C01:replay-no-error")
+				vxrt.Assert(len(t.logs) == 0, "C01:replay-no-log")
+			}
+		}
+	}
+	run(true)
+	stamp := vxrt.FSStamp()
+	before := dumpDir(dir)
+	run(false)
+	vxrt.Assert(vxrt.FSStamp() == stamp, "C01:replay-no-write")
+	vxrt.Assert(vxrt.Eq(dumpDir(dir), before), "C01:replay-dir-unchanged")
+}
+
+// H_C01_many: more than nine calls in one test ([T - 1] is a prefix of [T - 10]);
+// the bodies of ordinals 1 and 10 are symbolic.
+func H_C01_many() {
+	vxrt.CI(false)
+	dir := vxrt.Dir()
+	c := WithConfig(Dir(dir), Filename("f"))
+	n := vxrt.Param("n", 2)
+	b1 := symText("body-1", n, true)
+	b10 := symText("body-10", n, true)
+	vals := make([]string, 11)
+	for k := range vals {
+		vals[k] = "v" + itoa(k)
+	}
+	vals[0], vals[9] = b1, b10
+	for round := 0; round < 2; round++ {
+		t := newT("TestT")
+		stamp := vxrt.FSStamp()
+		for k := range vals {
+			c.MatchSnapshot(t, vals[k])
+		}
+		t.end()
+		if round == 0 {
+			vxrt.Assert(len(t.errors) == 0 && len(t.logs) == 11, "C01:record")
+		} else {
+			vxrt.Assert(len(t.errors) == 0 && len(t.logs) == 0, "C01:replay-no-error")
+			vxrt.Assert(vxrt.FSStamp() == stamp, "C01:replay-no-write")
+		}
+	}
+}
+
+// H_C01_longline: one line longer than bufio's default 64 KiB token limit
+// (concrete filler, symbolic ends).
+func H_C01_longline() {
+	vxrt.CI(false)
+	dir := vxrt.Dir()
+	c := WithConfig(Dir(dir), Filename("f"))
+	filler := make([]byte, vxrt.Param("len", 70000))
+	for i := range filler {
+		filler[i] = 'x'
+	}
+	head := symText("head", 1, true)
+	tail := symText("tail", 1, true)
+	val := head + string(filler) + tail
+	for round := 0; round < 2; round++ {
+		t := newT("TestL")
+		c.MatchSnapshot(t, val)
+		t.end()
+		if round == 0 {
+			vxrt.Assert(len(t.errors) == 0 && len(t.logs) == 1, "C01:record")
+		} else {
+			vxrt.Assert(len(t.errors) == 0 && len(t.logs) == 0, "C01:replay-no-error")
+		}
+	}
+}
+
+// H_C01_shadow: test X stores a text one of whose lines looks like the header
+// of test Y's first slot (part-concrete: "[TestY - ?]" with a symbolic digit),
+// then Y makes its first call.
+func H_C01_shadow() {
+	vxrt.CI(false)
+	dir := vxrt.Dir()
+	c := WithConfig(Dir(dir), Filename("f"))
+	d := vxrt.Text("digit", 1)
+	vxrt.Assume(vxrt.And(d[0] >= '0', d[0] <= '9'))
+	rest := symText("rest", vxrt.Param("n", 2), true)
+	xText := "[TestY - " + d + "]\n" + rest
+	yText := symText("y-value", 1, true)
+	if vxrt.Param("known_K2", 1) == 1 {
+		// known finding K2: a stored body has a whole line equal to the header of a slot addressed in the same file
+		vxrt.Assume(vxrt.Not(hasLine(xText, "[TestY - 1]")))
+	}
+	for round := 0; round < 2; round++ {
+		tx, ty := newT("TestX"), newT("TestY")
+		c.MatchSnapshot(tx, xText)
+		tx.end()
+		c.MatchSnapshot(ty, yText)
+		ty.end()
+		if round == 0 {
+			vxrt.Assert(len(tx.errors) == 0 && len(tx.logs) == 1, "C01:record")
+			vxrt.Assert(len(ty.errors) == 0 && len(ty.logs) == 1, "C01:record-second-test")
+		} else {
+			vxrt.Assert(len(tx.errors)+len(ty.errors) == 0, "C01:replay-no-error")
+			vxrt.Assert(len(tx.logs)+len(ty.logs) == 0, "C01:replay-no-log")
+		}
+	}
+}
+
+// H_C01_struct: line-structured values (see structText) through MatchSnapshot
+// or MatchYAML, next to a pre-existing entry; record, then replay.
+func H_C01_struct() {
+	vxrt.CI(false)
+	vxrt.YAMLAssume(true)
+	dir := vxrt.Dir()
+	c := WithConfig(Dir(dir), Filename("f"))
+	val := structText("value", vxrt.Param("lines", 3))
+	kind := vxrt.Choice("kind", 2)
+	writeFile(dir+"/f.snap", frame("TestZ - 1", "z"))
+	for round := 0; round < 2; round++ {
+		t := newT("TestA")
+		stamp := vxrt.FSStamp()
+		doCall(c, t, kind, val)
+		t.end()
+		if round == 0 {
+			vxrt.Assert(len(t.errors) == 0 && len(t.logs) == 1, "C01:record")
+		} else {
+			vxrt.Assert(len(t.errors) == 0, "C01:replay-no-error")
+			vxrt.Assert(len(t.logs) == 0, "C01:replay-no-log")
+			vxrt.Assert(vxrt.FSStamp() == stamp, "C01:replay-no-write")
+		}
+	}
+	got, _, err := getPrevSnapshot("[TestZ - 1]", dir+"/f.snap")
+	vxrt.Assert(err == nil && got == "z", "C01:bystander-entry-intact")
+}
